@@ -251,6 +251,8 @@ def validate_trace(work, module, props, trace, timeout=1800, heap="3g", extra_co
             name=os.path.basename(trace).replace(".ndjson", ""))
     r.nlines = count_lines(trace)
     r.trace = trace
+    r.module = module
+    r.extra_constants = extra_constants
     if r.error is None and r.depth - 1 != r.nlines:
         r.error = "trace not consumed: depth %d, lines %d" % (r.depth, r.nlines)
     return r
@@ -323,7 +325,7 @@ class Report:
         for k, v in d.items():
             self.cov[k] = self.cov.get(k, 0) + v
 
-    def violation(self, assertion, event_line, trace, lineno, detail=None):
+    def violation(self, assertion, event_line, trace, lineno, detail=None, module=None, constants=None):
         """Record a failing event: known finding or violation (writes the replay file)."""
         try:
             ev = json.loads(event_line) if event_line else None
@@ -348,6 +350,7 @@ class Report:
         with open(path, "w") as f:
             json.dump({"property": self.prop, "assertion": assertion, "event_line": lineno, "event": ev,
                        "trace": keep, "detail": detail, "seed": self.seed, "tier": self.tier,
+                       "module": module, "constants": constants,
                        "how": "bin/check --replay " + path}, f, indent=1)
         self.violations.append((assertion, path))
 
@@ -414,4 +417,5 @@ def absorb_trace_results(rep, results, max_report=40):
                 if per[nm] > 2:
                     continue  # the first two failing events per assertion and trace get a replay file
                 line = line or read_line(r.trace, lineno)
-                rep.violation(nm, line, r.trace, lineno)
+                rep.violation(nm, line, r.trace, lineno, module=getattr(r, "module", None),
+                              constants=getattr(r, "extra_constants", None))
